@@ -34,7 +34,9 @@ props! {
     "C01" => c01,
     "C02" => c02,
     "C08" => c08,
+    "C11" => c11,
     "C12" => c12,
+    "C13" => c13,
     "C16" => c16,
     "C17" => c17,
 }
